@@ -52,12 +52,14 @@ Definition fin (l : loc) (f : flavour) : path := (fst l, NFinal (snd l) f).
 Definition tmp (l : loc) (f : flavour) : path := (fst l, NTmp (snd l) f).
 
 (* ---- contents ----------------------------------------------------------------------- *)
-(* two function-node classes, Workflow, and two distinct classes that share module and qualified
-   name (class identity is what Node.load compares, not names) *)
-Inductive cls := CA | CB | CW | CP | CQ.
+(* two function-node classes, Workflow, two distinct classes that share module and qualified
+   name (class identity is what Node.load compares, not names), and a class CE with a subclass CD
+   (a node of the one is not a node of the other for Node.load, in either direction) *)
+Inductive cls := CA | CB | CW | CP | CQ | CE | CD.
 Definition cls_eqb (a b : cls) : bool :=
   match a, b with
   | CA, CA => true | CB, CB => true | CW, CW => true | CP, CP => true | CQ, CQ => true
+  | CE, CE => true | CD, CD => true
   | _, _ => false
   end.
 
@@ -283,7 +285,7 @@ Definition lres_of (x : option (flavour * cls * Z)) : lres :=
 
 (* ---- observations (what the harness prints for the real code) --------------------------- *)
 Definition ocls (c : cls) : obs :=
-  OS (match c with CA => "A" | CB => "B" | CW => "W" | CP => "P" | CQ => "Q" end).
+  OS (match c with CA => "A" | CB => "B" | CW => "W" | CP => "P" | CQ => "Q" | CE => "E" | CD => "D" end).
 Definition ocontent (o : option content) : obs :=
   match o with
   | None => OZ 0
